@@ -152,13 +152,16 @@ theorem XReach_xrun {pw : Pid → List Wid} {x0 : X} (ts : List Tid) :
   | revive w => rfl
   | send w al => rfl
   | tick d => rfl
+  | shutdown w => rfl
   | deliver k fail =>
     simp only [startE]
     split
     · rfl
     · split
       · rfl
-      · split <;> rfl
+      · split
+        · rfl
+        · split <;> rfl
 
 /-- The registry after a step is the registry before it with the step's events applied, in order. -/
 theorem xstep_reg {pw : Pid → List Wid} {x x' : X} {t : Tid} (h : xstep? pw x t = some x') :
